@@ -104,6 +104,11 @@ def program(x):
         elif shape == "via_prefix":        # ... or through the enum-level prefix
             enum_attrs = ['#[strum(prefix = "{0}-")]']
             bad = ["    Bad,"]
+        elif shape in ("names_const_in_scope", "names_static_in_scope"):
+            # edition-2021 format strings capture identifiers from the surrounding scope: a unit variant has no fields, so the
+            # placeholder is still an error even though an item of that name exists
+            lines.append('pub const GREETING: &str = "hi";' if shape == "names_const_in_scope" else 'pub static GREETING: &str = "hi";')
+            bad = ['    #[strum(to_string = "{GREETING}")]', "    Bad,"]
         elif shape == "nonascii_prefix":     # multi-byte text in front of the placeholder, contributed by the prefix
             enum_attrs = ['#[strum(prefix = "\u00fcn\u00efc\u00f6d\u00e9/")]']
             bad = ['    #[strum(to_string = "{0}")]', "    Bad,"]
@@ -121,8 +126,15 @@ def program(x):
             dv = ["    #[strum(default)]", "    Other(String),"]
             ok_variants = ([dv] + ok_variants) if shape.endswith("first") else (ok_variants + [dv])
     elif rule == "prop_literal":
-        lit = {"float": "1.5", "char": "'c'", "bytestr": 'b"x"', "byte": "b'x'"}[shape]
-        bad = ["    #[strum(props(a = %s))]" % lit, "    Bad,"]
+        if shape == "float_after_same_key":
+            bad = ['    #[strum(props(a = "3.7", b = "x", a = 3.7))]', "    Bad,"]
+        elif shape == "float_after_same_key_split":
+            bad = ['    #[strum(props(a = "3.7"), props(b = "x", a = 3.7))]', "    Bad,"]
+        elif shape == "char_before_same_key":
+            bad = ["    #[strum(props(a = 'c', a = \"c\"))]", "    Bad,"]
+        else:
+            lit = {"float": "1.5", "char": "'c'", "bytestr": 'b"x"', "byte": "b'x'"}[shape]
+            bad = ["    #[strum(props(a = %s))]" % lit, "    Bad,"]
     elif rule == "unknown_kw":
         if shape == "enum":
             enum_attrs = ["#[strum(bogus)]"]
